@@ -370,7 +370,14 @@ def depNamesOf {ρ} (sub : SubG ρ) : List (String × List String) :=
 
 /-- `AdditionalProperties` as a *validator*.  For elements that build objects through `Properties` the construction
     step already rejects the same keys, so the validator adds nothing there; it is observable only on elements whose
-    construction does not go through `Properties` (`Not`, compositions) and that were given object keywords. -/
+    construction does not go through `Properties` (`Not`, compositions) and that were given object keywords.
+
+    Modelled domain: the Python asks `key in __properties__`, which is `properties[key].element != Nothing()`, so a
+    key whose only declaration (one property, or one matching pattern) is a `Nothing()` element counts as undeclared
+    there, while here every declared or pattern-matched key is allowed.  The two agree except on a composition element
+    that forbids additional properties *and* declares a `Nothing()` property — a configuration no parser or constructor
+    produces (it takes an attribute assignment on a composition element); the correspondence check recognises it
+    (`core.outside_additional_properties_model`) and does not consult the model there. -/
 def additionalPropsCheck {ρ} (env : Env) (c : Cls) (kw : Kw) (sub : SubG ρ) (kvs : List (String × JVal)) : V :=
   match c with
   | .not | .anyOf | .oneOf | .allOf =>
